@@ -51,7 +51,7 @@ TOTAL_PREFIX = (
     'arrayvec::arrayvec::ArrayVec::<T, CAP>::len', 'arrayvec::arrayvec::ArrayVec::<T, CAP>::new',
     'arrayvec::arrayvec::ArrayVec::<T, CAP>::push_unchecked', 'nodrop::imp::NoDrop::<T>::new',
     'core::intrinsics::', 'core::mem::', 'core::core_arch::', 'core::array::', 'alloc::fmt::format', 'alloc::str::<impl str>::',
-    'core::hint::must_use',
+    'core::hint::must_use', 'alloc::str::',
     # total slice / Vec accessors (return Option / bool / iterators; never panic)
     'core::slice::<impl [T]>::get', 'core::slice::<impl [T]>::first', 'core::slice::<impl [T]>::last',
     'core::slice::<impl [T]>::is_empty', 'core::slice::<impl [T]>::contains', 'alloc::vec::Vec::<T, A>::is_empty',
